@@ -332,6 +332,54 @@ func randPath(r *vh.Rand, maxLen int, globW int) []string {
 	return p
 }
 
+// orderNames: a name that is a proper prefix of another whose next byte sorts
+// below '/', upper/lower case, digits of different lengths, a space, a
+// multi-byte name, a literal glob as a stored name.
+var orderNames = []string{"a", "a-", "a.", "a b", "a*", "aa", "A", "B", "b", "10", "9", "é", "z", "~", "a/b"}
+
+func orderPath(r *vh.Rand, maxLen int) []string {
+	n := 1 + r.Intn(maxLen)
+	p := make([]string, n)
+	for i := range p {
+		if r.Chance(1, 2) {
+			p[i] = orderNames[r.Intn(5)] // the prefix cluster a, a-, a., "a b", a*
+		} else {
+			p[i] = orderNames[r.Intn(len(orderNames))]
+		}
+	}
+	return p
+}
+
+// orderCase: many siblings under few parents, then sorted walks around deletes.
+func orderCase(r *vh.Rand) []Op {
+	var ops []Op
+	var stored [][]string
+	n := 4 + r.Intn(10)
+	for i := 0; i < n; i++ {
+		var p []string
+		if len(stored) > 0 && r.Chance(1, 2) {
+			q := stored[r.Intn(len(stored))]
+			p = append(cp(q[:r.Intn(len(q))]), orderPath(r, 2)...)
+		} else {
+			p = orderPath(r, 3)
+		}
+		ops = append(ops, Op{K: "add", P: p, V: int64(r.Intn(6))})
+		stored = append(stored, p)
+	}
+	ops = append(ops, Op{K: "walksorted"})
+	for i := 0; i < 1+r.Intn(3); i++ {
+		q := cp(stored[r.Intn(len(stored))])
+		if r.Chance(1, 2) && len(q) > 1 {
+			q = q[:1+r.Intn(len(q)-1)]
+		}
+		o := Op{K: "delete", P: q}
+		randCond(r, &o)
+		ops = append(ops, o, Op{K: "walksorted"})
+	}
+	ops = append(ops, Op{K: "children", P: nil}, Op{K: "walk"})
+	return ops
+}
+
 func randCond(r *vh.Rand, o *Op) {
 	switch r.Pick(3, 1, 1) {
 	case 1:
@@ -478,7 +526,7 @@ func (e *emitter) flush() {
 
 func main() {
 	o := vh.ParseFlags()
-	meta := vh.NewMeta("corpus cases; every sequence of 3 (thorough: 4) operations over a fixed alphabet of adds/deletes/queries on paths over {a,b,c,*}, each followed by WalkSorted; seeded random sequences of 3..40 operations over {a,b,c,*,long UTF-8 name} with paths of length 0..4 biased towards stored paths. distinct = distinct operation sequence; non-trivial = at least one successful Add and at least one Query/Delete/WalkDeleted that selected a leaf")
+	meta := vh.NewMeta("corpus cases; every sequence of 3 (thorough: 4) operations over a fixed alphabet of adds/deletes/queries on paths over {a,b,c,*}, each followed by WalkSorted; seeded random sequences of 3..40 operations over {a,b,c,*,long UTF-8 name} with paths of length 0..4 biased towards stored paths; an 'order' family of sibling-rich trees over names on which bytewise, joined-string, case-insensitive, numeric and length orders disagree, with sorted walks around deletes. distinct = distinct operation sequence; non-trivial = at least one successful Add and at least one Query/Delete/WalkDeleted that selected a leaf")
 	e := &emitter{dir: o.Out, cf: vh.NewCaseFile(), meta: meta, limit: 1500}
 
 	if o.Replay != "" {
@@ -562,6 +610,15 @@ func main() {
 	}
 	for i := 0; i < nrand; i++ {
 		e.add("random", randCase(r.Fork(), 40))
+	}
+	// names chosen so that different notions of order (bytewise per element,
+	// joined string, case-insensitive, numeric, by length) disagree
+	nord := 500
+	if o.Thorough() {
+		nord = 6000
+	}
+	for i := 0; i < nord; i++ {
+		e.add("order", orderCase(r.Fork()))
 	}
 	e.flush()
 	meta.Exhaustive = false
